@@ -218,6 +218,14 @@ def run_seed_stream(ctx, rule):
             buf = acc[0].expr[2][0]
             bl = g.eb.init_expr(buf[1]) if buf[0] == "phi" else buf
             good = fills[0][1][2][1] == buf and bl is not None and bl[0] == "repeat"
+        elif len(fills) == 1 and not reads and Mentions(Call("into_seed_stream", Arg(1)))(resolve(fills[0][1][2][0])) and len(acc) == 1 \
+                and acc[0].expr is not None and acc[0].expr[0] == "phi":
+            # the same thing filled in place: `let mut s = Seed([0; N]); stream.fill_bytes(&mut s.0[..]); s`
+            sd = acc[0].expr
+            init = g.eb.init_expr(sd[1])
+            dst = fills[0][1][2][1]
+            whole = Field(lambda e: e == sd, "0")(dst) or (Call("index_mut", Field(lambda e: e == sd, "0"), Any())(dst) and "RangeFull" in fmt(dst[2][1]))
+            good = init is not None and Agg("Seed", Any())(init) and init[2][0][0] == "repeat" and whole
         if good:
             ctx.ok(rule, key, "into_seed = one fill_bytes of a SEED_SIZE buffer from the start of into_seed_stream()", loc=f.loc)
         else:
